@@ -5,11 +5,16 @@ case = (op, data, layout, seed, params, streams, exps, logs, tag)
          | (parent_code, numSlices, partitions): the dataset is another parent built from data (PARENTS: generator /
            range input, mapPartitions(sorted | list | lambda), mapPartitionsWithIndex, glom().flatMap, union,
            coalesce, zip, cartesian, persisted and materialised, ...); `partitions` is its glom().collect(), which
-           is all the model sees of it
+           is all the model sees of it.  (parent_code, numSlices, partitions, (P, pos)) for the parent 'flaky': a
+           function upstream of the sampled dataset raises once in partition P after delivering pos elements
+           (transient task fault; the context retries the task)
   op 0 sample(withReplacement, fraction, seed)         params = (wr, fraction: float, pass_as_int: bool)
   op 1 sampleByKey(withReplacement, fractions, seed)   params = (wr, {key: float})
   op 2 takeSample(withReplacement, num, seed)          params = (wr, num)
   op 3 randomSplit(weights, seed)                      params = (weights,)
+  op 4 one sampled dataset s = sample(...) / sampleByKey(...) looked at from different depths (VIEWS): collect, count,
+       map / filter on top, persisted (first and second action), glom flattened, mapValues, union with an empty
+       dataset, and a second-level sample with f = 1     params = (wr, keyed, fraction | {key: float}, seed2)
   streams = [(key, [floats], [raw ints])]   what every random generator answers (see rngtap.py); key 'g' is the
             module-level generator.  tag 'mt': the streams were recorded from the real Mersenne twister for that
             seed; tag 'scr': scripted (adversarial values in [0, 1): 0.0, 1 - 2**-53, the fraction / the
@@ -44,7 +49,9 @@ RULE = ('cases (op, data, numSlices, seed, params, draw streams): seeds 0..N and
         'seeds; fractions {0,.01,.5,1} and {.5,1,3}); lists with None (first in a partition, whole partitions of None, [None], '
         'None as key / value of pairs) under every operation; every operation applied directly to 17 kinds of parent '
         '(generator/range input, mapPartitions(sorted|list|tuple|lambda), mapPartitionsWithIndex, glom().flatMap, union, '
-        'coalesce, zip, cartesian, persisted, map, filter); every case once with the streams of the real twister (recorded) and '
+        'coalesce, zip, cartesian, persisted, map, filter); every operation under a transient upstream task fault '
+        '(partition 0 / last / random, after 0 / 1 / middle / last-1 / all elements); one seeded sample seen through ten '
+        'views (collect, count, map, filter, persist twice, glom, mapValues, union, second-level sample); every case once with the streams of the real twister (recorded) and '
         'scripted streams with adversarial draws (0.0, 1-2^-53, the fraction, every boundary and its neighbours); '
         'non-trivial = non-empty data and a result that is neither an error nor empty-by-construction; distinct by '
         'canonical JSON of the case')
@@ -94,7 +101,8 @@ class MathTap:
 
 
 PARENTS = ['list', 'gen', 'range', 'mp_sorted', 'mp_list', 'mp_lambda_list', 'mpi_list', 'glom_flatmap', 'union',
-           'coalesce', 'zip', 'cartesian', 'cached', 'map', 'cached_mp_list', 'mp_tuple', 'filter_true']
+           'coalesce', 'zip', 'cartesian', 'cached', 'map', 'cached_mp_list', 'mp_tuple', 'filter_true', 'flaky']
+FLAKY = PARENTS.index('flaky')
 
 
 def _sort_key(x):
@@ -147,7 +155,53 @@ def build(sc, data, layout):
         return base.map(lambda x: x)
     if name == 'filter_true':
         return base.filter(lambda x: True)
+    if name == 'flaky':
+        return base.mapPartitionsWithIndex(flaky(*layout[3]))
     raise ValueError(name)
+
+
+def flaky(P, pos):
+    """Passes the elements through; raises once, in partition P, when pos elements have been delivered
+    (after the last one if the partition is shorter)."""
+    fired = [False]
+
+    def f(i, it):
+        j = 0
+        for x in it:
+            if i == P and j == pos and not fired[0]:
+                fired[0] = True
+                raise RuntimeError('transient fault')
+            yield x
+            j += 1
+        if i == P and j <= pos and not fired[0]:
+            fired[0] = True
+            raise RuntimeError('transient fault')
+    return f
+
+
+def _ident(x):
+    return x
+
+
+def _true(x):
+    return True
+
+
+VIEWS = ['collect', 'count', 'map.collect', 'filter.collect', 'persist.collect#1', 'persist.collect#2', 'glom-flattened',
+         'mapValues|map.map', 'union-with-empty', 'sample(False,1.0,seed2)']
+
+
+def views(rdd, op_params, seed):
+    wr, keyed, fr, seed2 = op_params
+    s = rdd.sampleByKey(wr, dict(fr), seed) if keyed else rdd.sample(wr, fr, seed)
+    v = [s.collect(), s.count(), s.map(_ident).collect(), s.filter(_true).collect()]
+    p = s.persist()
+    v += [p.collect(), p.collect()]
+    v.append([x for g in s.glom().collect() for x in g])
+    v.append(s.mapValues(_ident).collect() if keyed else s.map(_ident).map(_ident).collect())
+    v.append(s.union(rdd.context.parallelize([])).collect())
+    v.append(s.sample(False, 1.0, seed2).collect())
+    return v
 
 
 def call(op, data, layout, seed, params):
@@ -163,6 +217,8 @@ def call(op, data, layout, seed, params):
         return rdd.takeSample(wr, num, seed)
     if op == 3:
         return [s.collect() for s in rdd.randomSplit(list(params[0]), seed)]
+    if op == 4:
+        return views(rdd, params, seed)
     raise ValueError(op)
 
 
@@ -232,7 +288,7 @@ def with_parts(data, layout):
     r = limited(lambda: build(Context(), data, layout).glom().collect())
     if r is TIMEOUT:
         return None
-    return (layout[0], layout[1], r)
+    return (layout[0], layout[1], r) + tuple(layout[3:4])
 
 
 def finish(op, data, nsl, seed, params, script, tag, entropy=0):
@@ -241,7 +297,7 @@ def finish(op, data, nsl, seed, params, script, tag, entropy=0):
     'timeout' (reported by the oracle); after two of them no more cases of that operation are generated."""
     if GEN_TIMEOUTS[op] >= 2:
         return None
-    if not isinstance(nsl, int) and len(nsl) == 2:
+    if not isinstance(nsl, int) and (len(nsl) == 2 or nsl[2] is None):
         try:
             nsl = with_parts(data, nsl)
         except Exception:  # pylint: disable=broad-except
@@ -326,6 +382,16 @@ def oracle(case, result):
             return (f'{OPS[op]}:not-deterministic', f'two runs with seed {seed}: {a!r} vs {b!r}')
         if tag == 'mt' and not _eq(a, value):
             return (f'{OPS[op]}:replay-differs', f'seed {seed}: untapped {a!r} vs replayed {value!r}')
+    if not isinstance(nsl, int) and nsl[0] == FLAKY and seed is not None and op != 2:
+        # a transient task fault upstream must not change the result: same as on the fault-free dataset
+        ref = limited(untapped, op, data, nsl[1], seed, params)
+        if ref is TIMEOUT:
+            return late
+        for name, got in (('untapped', a), ('replayed', value)):
+            if (name == 'untapped' or tag == 'mt') and not _eq(ref, got):
+                return (f'{OPS[op]}:differs-under-transient-fault',
+                        f'fault in partition {nsl[3][0]} after {nsl[3][1]} elements, seed {seed}: '
+                        f'{name} {got!r} vs fault-free {ref!r}')
     if isinstance(value, Err):
         return None
     parts = parts_of(data, nsl)          # the input dataset of the sampling operation, freshly evaluated
@@ -367,6 +433,18 @@ def oracle(case, result):
             if not all(any(_same(x, y) for y in flat) for x in value):
                 return ('takeSample:invented-element', f'{value!r} of {flat!r}')
         return None
+    if op == 4:
+        wr, keyed, fr, _seed2 = params
+        base = value[0]
+        for name, v in zip(VIEWS, value):
+            same = (v == len(base)) if name == 'count' else _eq(v, base)
+            if not same:
+                return (f'sample:differs-at-depth:{name}', f'seed {seed}: collect() gives {base!r}, {name} gives {v!r}')
+        if not all(any(_same(x, y) for y in flat) for x in base):
+            return ('sample:invented-element', f'{base!r} of {flat!r}')
+        if not wr and not is_subseq(base, flat):
+            return ('sample:not-subsequence', f'{base!r} of {flat!r}')
+        return None
     if op == 3:
         ws = params[0]
         if not ws or any(not (w >= 0) or w == math.inf for w in ws) or not sum(ws) > 0:
@@ -391,13 +469,13 @@ def _eq(a, b):
     return repr(a) == repr(b)
 
 
-OPS = ['sample', 'sampleByKey', 'takeSample', 'randomSplit']
+OPS = ['sample', 'sampleByKey', 'takeSample', 'randomSplit', 'sampleViews']
 
 
 def kind(case):
     op, params, tag = case[0], case[4], case[8]
     extra = ''
-    if op in (0, 1, 2):
+    if op in (0, 1, 2, 4):
         extra = '-repl' if params[0] else '-norepl'
     par = '' if isinstance(case[2], int) else '-' + PARENTS[case[2][0]]
     return f'{OPS[op]}{extra}-{tag}{par}'
@@ -478,12 +556,14 @@ def both(rng, out, op, data, nsl, seed, params, specials, lam=1.0, scr=True):
     n = len(data)
     if not isinstance(nsl, int):
         try:
-            nsl = with_parts(data, nsl[:2])
+            nsl = with_parts(data, nsl)
         except Exception:  # pylint: disable=broad-except
             return
         if nsl is None:
             return
         n = sum(len(p) for p in nsl[2])
+    if op == 4:
+        n = int(n * (max(lam, 0.0) + 1.0) * 4) + 8      # the second-level sample draws once per sampled element
     out.append(finish(op, data, nsl, seed, params, None, 'mt', rng.getrandbits(40)))
     if scr:
         out.append(finish(op, data, nsl, seed, params,
@@ -498,9 +578,13 @@ def op_variants(rng, data, keyed_fr=None):
          (2, (False, rng.choice([n, n + 2, max(0, n - 1), 1])), [], 0.0),
          (2, (True, rng.choice([n, n + 2, 1, 2])), [], 6.0),
          (3, (rng.choice([[1, 1], [0.3, 0.3, 0.4], [2, 3], [0.1] * 10]),), [], 0.0)]
+    v.append((4, (False, False, rng.choice([0.5, 0.3, 1.0]), rng.randint(0, 30)), [0.5, 0.3], 0.0))
+    v.append((4, (True, False, rng.choice([0.5, 1.0, 3.0]), rng.randint(0, 30)), [], 3.0))
     if keyed_fr is not None:
         v.append((1, (False, keyed_fr), list(keyed_fr.values()), 0.0))
         v.append((1, (True, keyed_fr), [], max([0.0] + list(keyed_fr.values()))))
+        v.append((4, (False, True, keyed_fr, rng.randint(0, 30)), list(keyed_fr.values()), 0.0))
+        v.append((4, (True, True, keyed_fr, rng.randint(0, 30)), [], max([0.0] + list(keyed_fr.values()))))
     return v
 
 
@@ -508,6 +592,8 @@ def generate(rng, tier):
     quick = tier == 'quick'
     out = []
     GEN_TIMEOUTS.clear()
+    fr_no4 = [0.0, 0.01, 0.3, 0.5, 0.99, 1.0]
+    fr_re4 = [0.0, 0.5, 1.0, 3.0]
     # ---- None as data: first element of a partition, whole partitions of None, a single None
     nones = [[None], [None, None, None], [None, 1, 2], [1, None, 2, None], [None, None, 3], [0, None, '', None, False],
              [1, 2, None, 3], [None, 5, None, 5, None, 5]]
@@ -534,6 +620,42 @@ def generate(rng, tier):
                 keyed_fr = {k: rng.choice([0.0, 0.5, 1.0]) for k in rng.sample([3, 1, 2, 5, 4, None, 'a', 0, 6], 4)}
             for op, params, specials, lam in op_variants(rng, base, keyed_fr):
                 both(rng, out, op, base, (pc, nsl), seed, params, specials, lam, scr=(not quick or rng.random() < 0.4))
+    # ---- a transient task fault upstream of the sampled dataset (raises once after pos elements; retried)
+    for rep in range(14 if quick else 120):
+        n = rng.choice([4, 6, 9, 12])
+        keyed = rng.random() < 0.35
+        data = [(rng.choice([0, 1, 2, 'a']), i) for i in range(n)] if keyed else \
+            [rng.choice([i, i % 3, None]) if rng.random() < 0.3 else i for i in range(n)]
+        nsl = rng.choice([1, 2, 3, 4])
+        psizes = [len(p) for p in parts_of(data, nsl)]
+        P = rng.choice([0, 0, max(0, len(psizes) - 1), rng.randrange(len(psizes))])
+        pos = rng.choice([0, 1, psizes[P] // 2, max(0, psizes[P] - 1), psizes[P]])
+        seed = rng.choice([0, 1, 2, 13, None])
+        fr = {k: rng.choice([0.0, 0.5, 1.0]) for k in rng.sample([0, 1, 2, 'a', 9], 3)} if keyed else None
+        for op, params, specials, lam in op_variants(rng, data, fr):
+            if op == 2:
+                # take(num) evaluates lazily outside the retried task: a fault inside the partitions it reads
+                # surfaces as the fault itself (retrying is the subject of C04); keep the fault beyond its reach
+                wr, num = params
+                if not wr or num > sum(psizes[:P]) or num <= 0:
+                    continue
+            both(rng, out, op, data, (FLAKY, nsl, None, (P, pos)), seed, params, specials, lam,
+                 scr=(not quick or rng.random() < 0.4))
+    # ---- the same seeded sample seen from different depths
+    for rep in range(40 if quick else 600):
+        keyed = rng.random() < 0.4
+        data = gen_data(rng, keyed=keyed, maxlen=16)
+        nsl = gen_slices(rng, len(data))
+        seed = gen_seed(rng)
+        wr = rng.random() < 0.45
+        if keyed:
+            keys = rng.sample([0, 1, 2, 3, 'a', 'b', 'zz', -1, 99], rng.randint(1, 6))
+            fr = {k: rng.choice(fr_re4 if wr else fr_no4) for k in keys}
+            lam = max([0.0] + list(fr.values())) if wr else 0.0
+            both(rng, out, 4, data, nsl, seed, (wr, True, fr, rng.randint(0, 40)), list(fr.values()), lam)
+        else:
+            f = rng.choice(fr_re4 if wr else fr_no4)
+            both(rng, out, 4, data, nsl, seed, (wr, False, f, rng.randint(0, 40)), [f], f if wr else 0.0)
     # ---- sample
     fr_no = [0.0, 5e-324, 0.01, 0.3, 0.5, 0.99, ONE_MINUS, 1.0, 1.5, -0.5]
     fr_re = [0.0, 0.5, 1.0, 3.0, 0.01, 7.5, -1.0, -0.0]
@@ -632,7 +754,7 @@ def shrink_candidates(case):
     op, data, nsl, seed, params, streams, exps, logs, tag = case
     if tag == 'scr':
         return
-    lay = nsl if isinstance(nsl, int) else tuple(nsl[:2])
+    lay = nsl if isinstance(nsl, int) else (nsl[0], nsl[1], None) + tuple(nsl[3:4])
     cands = [(data[:i] + data[i + 1:], lay, seed) for i in range(len(data))]
     if isinstance(nsl, int) and nsl > 1:
         cands.append((data, nsl - 1, seed))
